@@ -114,8 +114,13 @@ Definition o_release (h : oheap) (c : nat) : oheap :=
 Definition o_create_node (s : ofs) (parent : nat) (abs_path name : str) (mode : N) : ofs * nat :=
   let c := length (o_heap s) in
   let id := (o_last_id s + 1)%N in
+  (* in a set-group-ID directory the node inherits the group of the directory, a new directory also the bit *)
+  let pm := match oget (o_heap s) parent with Some n => on_meta n | None => {| m_mode := 0; m_uid := 0; m_gid := 0 |} end in
+  let inherit := has (m_mode pm) MODE_SETGID in
+  let gid := if inherit then m_gid pm else us_gid (o_user s) in
+  let mode1 := if inherit && has mode MODE_DIR then N.lor mode MODE_SETGID else mode in
   let nd := {| on_ch := []; on_data := []; on_nlink := 1; on_id := id;
-               on_meta := {| m_mode := mode; m_uid := us_uid (o_user s); m_gid := us_gid (o_user s) |} |} in
+               on_meta := {| m_mode := mode1; m_uid := us_uid (o_user s); m_gid := gid |} |} in
   ({| o_index := aset str_eqb abs_path c (o_index s);
       o_heap := o_add_child (o_heap s ++ [nd]) parent name c;
       o_last_id := id; o_cwd := o_cwd s; o_user := o_user s; o_umask := o_umask s; o_os := o_os s |}, c).
